@@ -18,6 +18,11 @@ import (
 // boundaries 127/128, 16383/16384 and 2097151/2097152.
 
 func packedLen(m *gmqtt.Message, v byte) (n int, pub *packets.Publish, err error, pan any) {
+	defer func() {
+		if x := recover(); x != nil {
+			pan = x
+		}
+	}()
 	pub = gmqtt.MessageToPublish(m, v)
 	b, err, pan, _ := packBytes(pub)
 	return len(b), pub, err, pan
@@ -176,6 +181,13 @@ func (c *checker) sizeCase(m *gmqtt.Message, v byte, what string) {
 		r.Violation("size.totalbytes:stage=pack:type=PUBLISH:v="+vs, fmt.Sprintf("packets.TotalBytes=%d, the packed PUBLISH has %d bytes", ptb, n), det)
 	}
 	if ok {
+		c.mu.Lock()
+		first := !c.sizeSampled
+		c.sizeSampled = true
+		c.mu.Unlock()
+		if first {
+			r.Sample(det)
+		}
 		r.Count("sizes_equal", 1)
 		r.Nontrivial(fmt.Sprintf("size:%d:%d:%s:%d", v, n, m.Topic, len(m.Payload)))
 		r.Distinct("size_header_len_classes", fmt.Sprintf("v%d/%d", v, headerLenClass(n)))
